@@ -30,7 +30,8 @@ CONTAINER_CALLS = ("std::cell::Cell::new",
                    "std::result::Result::map_err", "std::result::Result::ok", "std::option::Option::ok_or", "std::option::Option::ok_or_else",
                    "std::result::Result::unwrap_or", "std::option::Option::unwrap_or",
                    # pointer re-typing
-                   "std::ptr::mut_ptr::cast", "std::ptr::const_ptr::cast", "std::ptr::mut_ptr::cast_const", "std::ptr::const_ptr::cast_mut")
+                   "std::ptr::mut_ptr::cast", "std::ptr::const_ptr::cast", "std::ptr::mut_ptr::cast_const", "std::ptr::const_ptr::cast_mut",
+                   "std::ptr::NonNull::new", "std::ptr::NonNull::new_unchecked", "std::ptr::NonNull::as_ptr", "std::ptr::NonNull::cast")
 
 # ---- resource domain: the same typestate machinery decides descriptors (default) and heap/mapping pointers
 _FD_DOMAIN = dict(FOREIGN_SOURCES=FOREIGN_SOURCES, FOREIGN_OUT_SOURCES=FOREIGN_OUT_SOURCES, FOREIGN_SINKS=FOREIGN_SINKS,
@@ -323,6 +324,9 @@ class FdEngine:
                     la = op_local(lab["arg"])
                     if la is not None and la in aliases:
                         return None
+                if KIND == "mem" and lab["kind"] == "variant" and lab.get("variant") in ("None", "Break") and lab["place"]["l"] in aliases and \
+                        any(r.kind == "call" and r.id == "std::ptr::NonNull::new" for r in tracer.roots(lab["place"]["l"])):
+                    return None           # NonNull::new(p) is None exactly when p is null: nothing was allocated on this edge
                 if lab["kind"] == "cmp" and KIND == "mem":
                     # `p == MAP_FAILED` / `p != MAP_FAILED`: the failed edge carries no mapping
                     continue
@@ -872,7 +876,37 @@ def rule_fd_drop(ctx, cfg, F, model, rule_name="FD-DROP", rule_text=None):
         R.ok("Drop of %s closes `%s` once%s" % (adt, name, " (guarded by a sentinel test)" if guard_targets else " (unconditionally)"),
              d.loc(closes[0]), cfg)
     for (adt, name), info in sorted(own_containers.items()):
-        R.ok("Drop of %s closes every entry of `%s`" % (adt, name), None, cfg)
+        d = F.drop_fn(adt)
+        if d is None:
+            R.violate("%s.%s:no-drop" % (adt, name), "%s.%s holds descriptors but the type has no Drop impl" % (adt, name), adt, None, config=cfg)
+            continue
+        closes = {b for b, t in d.calls_to(*FOREIGN_SINKS)}
+        nexts = [b for b, t in d.calls() if strip_generics(t.get("callee") or "") == "std::iter::Iterator::next"]
+        if not closes or not nexts:
+            R.violate("%s.%s:drop-never-closes" % (adt, name), "Drop of %s does not walk `%s` closing its entries" % (adt, name), d.path, d.loc(0), config=cfg)
+            continue
+        # every turn of the loop closes: no way from one `next()` to the following one around the close (sentinel tests of the element aside)
+        tr = Tracer(d)
+        guards = set()
+        for b in d.live_blocks():
+            if d.term(b)["t"] != "switch":
+                continue
+            for s_ in d.succ(b):
+                for lab in edge_label(d, b, s_):
+                    if lab["kind"] == "cmp" and op_const(lab["b"]) is not None and _implies_invalid(lab["op"], op_const(lab["b"]), lab["truth"]) and \
+                            any(r.kind == "call" and r.block in nexts for r in tr.roots_of_operand(lab["a"])):
+                        guards.add(s_)
+        skipped = None
+        for nb in nexts:
+            for s0 in d.succ(nb):
+                if d.is_cleanup(s0) or s0 in closes or s0 in guards:
+                    continue
+                if nb in d.reachable(s0, avoid=closes | guards) and s0 != nb:
+                    skipped = nb
+        if skipped is not None:
+            R.violate("%s.%s:drop-entry-not-closed" % (adt, name), "Drop of %s can go on to the next entry of `%s` without closing the current one" % (adt, name), d.path, d.loc(skipped), config=cfg)
+        else:
+            R.ok("Drop of %s closes every entry of `%s` on every turn of its loop" % (adt, name), d.loc(min(closes)), cfg)
     R.count("owning_fields[%s]" % cfg, len(own_direct) + len(own_containers))
 
 
